@@ -26,9 +26,15 @@
      or is handed keeps being written by the function after the go statement
      (a live map handed to a goroutine instead of a copy): Tie_sites_comply,
      variable "local:<function>:<name>";
+   - a function that is exempt because nothing calls it (SetLastLogTime)
+     gets a caller: the exemption lapses, Tie_sites_comply names the site with
+     the caller's goroutine, Tie_caller_claims names the caller;
+   - memory behind a pointer field that one goroutine writes in place (the
+     caller-supplied end block stamp of a rescan, "S.f->g" variables) is read
+     or written from another goroutine: Tie_sites_comply;
    - an initialisation function (ResetHeaderState) is called after a go
      statement: Tie_init_calls.                                            *)
-From Coq Require Import String List Bool Arith ZArith.
+From Coq Require Import String Ascii List Bool Arith ZArith.
 From Verif Require Import C18.AccessTypes C18.Model C18.Spec C18.SiteCheck C18.Compose
                           C18.Vars C18.Replay Generated.AccessSites.
 Import ListNotations.
@@ -36,6 +42,8 @@ Open Scope string_scope.
 
 Definition open_allow : list aentry := map snd open_sites.
 Definition exempt : list aentry := (allow ++ open_allow)%list.
+(* for the composition theorem the conditional exemptions count as plain ones *)
+Definition exempt_all : list aentry := (exempt ++ allow_unreached)%list.
 
 (* (a) the site does not comply and is neither exempt nor an open finding *)
 Definition site_offends (a : asite) : bool := site_fails a && negb (allowed open_allow a).
@@ -48,10 +56,21 @@ Definition var_unused (e : ventry) : bool :=
    constructors, accessed atomically, or emitted by the translator as
    interesting (container mutated through method calls) *)
 Definition in_table (v : string) : bool := existsb (fun e => String.eqb (v_name e) v) vars.
+(* "S.f->g" names what is reached THROUGH the pointer field f of S (a path
+   variable); a type-wide outside_table entry "S." does not cover those *)
+Fixpoint has_arrow (s : string) : bool :=
+  match s with
+  | String "-" (String ">" _) => true
+  | String _ r => has_arrow r
+  | EmptyString => false
+  end.
 Definition is_outside (v : string) : bool :=
   existsb (fun o => let p := fst o in
                     String.eqb p v
-                    || (String.prefix p v && String.eqb (substring (Nat.pred (String.length p)) 1 p) ".")) outside_table.
+                    || (String.prefix p v
+                        && (String.eqb (substring (Nat.pred (String.length p)) 1 p) "."
+                            || String.eqb (substring (Nat.pred (String.length p)) 1 p) ">")
+                        && (negb (has_arrow v) || has_arrow p))) outside_table.
 (* shared locals are covered by the default discipline (SiteCheck.lookup_var) *)
 Definition accounted (v : string) : bool := in_table v || is_outside v || String.prefix "local:" v.
 
@@ -68,11 +87,13 @@ Definition stale_exempt : list aentry :=
   filter (fun x => negb (existsb (fun a => allowed [x] a
                                            && match lookup_var vars (a_var a) with
                                               | Some e => negb (site_ok e a) | None => false end)
-                                 access_sites)) exempt.
+                                 access_sites)) exempt_all.
 Definition stale_outside : list string :=
   map fst (filter (fun o => negb (existsb (fun f =>
      String.eqb (fst o) (f_var f)
-     || (String.prefix (fst o) (f_var f) && String.eqb (substring (Nat.pred (String.length (fst o))) 1 (fst o)) ".")) field_summary))
+     || (String.prefix (fst o) (f_var f)
+         && (String.eqb (substring (Nat.pred (String.length (fst o))) 1 (fst o)) "."
+             || String.eqb (substring (Nat.pred (String.length (fst o))) 1 (fst o)) ">"))) field_summary))
      outside_table).
 Definition doubly_listed : list string :=
   (map v_name (filter (fun e => Nat.ltb 1 (length (filter (fun e' => String.eqb (v_name e') (v_name e)) vars))
@@ -96,12 +117,27 @@ Definition bad_init_calls : list (string * string * bool) :=
   filter (fun c => let '(_, caller, pre) := c in
                    negb (pre || mem_str caller ctor_fns || mem_str caller ctor_by_callers)) init_fn_calls.
 
+(* the uses of the functions whose exemption leans on "who calls it" are
+   exactly the claimed ones *)
+Fixpoint strs_eqb (a b : list string) : bool :=
+  match a, b with
+  | [], [] => true
+  | x :: a', y :: b' => String.eqb x y && strs_eqb a' b'
+  | _, _ => false
+  end.
+Definition callers_found (fn : string) : option (list string) :=
+  option_map snd (find (fun c => String.eqb (fst c) fn) callers_of).
+Definition bad_caller_claims : list (string * option (list string)) :=
+  map (fun c => (fst c, callers_found (fst c)))
+      (filter (fun c => match callers_found (fst c) with
+                        | Some l => negb (strs_eqb l (snd c)) | None => true end) caller_claims).
+
 (* All offenders at once (coqc stops at the first failing theorem, so this
    one comes first and shows everything a change of the source broke). *)
 Theorem Tie_summary :
   (map show (filter site_offends access_sites), map v_name (filter var_unused vars), unaccounted,
-   (stale_exempt, stale_outside, doubly_listed), unknown_names, bad_init_calls)
-  = ([], [], [], ([], [], []), [], []).
+   (stale_exempt, stale_outside, doubly_listed), unknown_names, bad_init_calls, bad_caller_claims)
+  = ([], [], [], ([], [], []), [], [], []).
 Proof. vm_compute. reflexivity. Qed.
 Print Assumptions Tie_summary.
 
@@ -136,6 +172,10 @@ Theorem Tie_init_calls : bad_init_calls = [].
 Proof. vm_compute. reflexivity. Qed.
 Print Assumptions Tie_init_calls.
 
+Theorem Tie_caller_claims : bad_caller_claims = [].
+Proof. vm_compute. reflexivity. Qed.
+Print Assumptions Tie_caller_claims.
+
 (* ------------------------------------------------------------------ *)
 (* The composition with the trace theorem.  For ANY execution t and ANY
    interpretation of its memory locations, locks and goroutines in the
@@ -146,11 +186,11 @@ Print Assumptions Tie_init_calls.
    accesses at exempt sites and at the sites of open findings are harmless
    (allowed_sites_comply: what the reasons in Vars.v claim), THEN the
    execution has no data race on any variable of the table.              *)
-Lemma sites_checked_holds : sites_checked vars access_sites exempt.
+Lemma sites_checked_holds : sites_checked vars access_sites exempt_all.
 Proof.
   intros a e Hin Hfind Hal.
   assert (H : forallb (fun a => match find_var vars (a_var a) with
-                                | Some e => allowed exempt a || site_ok e a
+                                | Some e => allowed exempt_all a || site_ok e a
                                 | None => true end) access_sites = true)
     by (vm_compute; reflexivity).
   rewrite forallb_forall in H. specialize (H a Hin). rewrite Hfind, Hal in H. exact H.
@@ -162,7 +202,7 @@ Theorem C18_table_race_free :
     wf_trace t ->
     faithful vars access_sites t vname lock_inst site_of root_of creator ->
     single_owner vars t vname root_of owner ->
-    allowed_sites_comply vars exempt t vname lock_inst site_of creator owner ->
+    allowed_sites_comply vars exempt_all t vname lock_inst site_of creator owner ->
     ~ race_on (Compose.in_table vars vname) t.
 Proof.
   intros t vname lock_inst site_of root_of creator owner Hwf Hf Hso Hal.
